@@ -440,7 +440,7 @@ func checkAndExtractFieldType(paths []string, typ reflect.Type) (extracted refle
 	}
 
 	extracted = typ
-	for i, field := range paths {
+	for _, field := range paths {
 		if extracted.Kind() == reflect.Map {
 			if extracted.Key() != strType {
 				return nil, false, fmt.Errorf("type[%v] is not a map with string key", extracted)
@@ -473,13 +473,13 @@ func checkAndExtractFieldType(paths []string, typ reflect.Type) (extracted refle
 			continue
 		}
 
-		if i < len(paths)-1 {
-			if extracted.Kind() == reflect.Interface {
-				return extracted, true, nil
-			}
-
-			return nil, false, fmt.Errorf("intermediate type[%v] is not valid", extracted)
+		// field has to be looked up in a value that is neither a map nor a struct (pointer): this also
+		// holds for the last element of the path
+		if extracted.Kind() == reflect.Interface {
+			return extracted, true, nil
 		}
+
+		return nil, false, fmt.Errorf("intermediate type[%v] is not valid", extracted)
 	}
 
 	return extracted, false, nil
